@@ -176,6 +176,29 @@ def e2e_api(shard, rec, lib, rnd, scratch):
             if compare(rec, f"bulk report, {where} colour string", ctrl, doc, marker, T, case) is not None:
                 rec.count("e2e_bulk_judged")
                 rec.nontrivial(("bulk", where, T))
+        # a list in which some entries are rejected by the parser and carry the hostile text: whether the report mentions them or
+        # not, it has the control's element structure and shows user text verbatim
+        case = {"fn": "e2e_bulk_rejected", "T": T}
+        rec.ev()
+        try:
+            def mixed(x):
+                return [("#777777", "#ffffff"), (f"no-such-colour {x}", "#ffffff"), ("#888888", f"{x}"), (f"{x}", f"{x}"), ((1, 2, 3), "#000000")]
+            lib.make_readable_bulk(mixed(marker), save_report=True)
+            ctrl = open(os.path.join(scratch, "cm_colors_bulk_report.html"), encoding="utf-8").read()
+            lib.make_readable_bulk(mixed(T), save_report=True)
+            doc = open(os.path.join(scratch, "cm_colors_bulk_report.html"), encoding="utf-8").read()
+            if marker in ctrl:
+                compare(rec, "bulk report with rejected entries", ctrl, doc, marker, T, case)
+            else:
+                cs, hs = htmldom.skeleton(ctrl), htmldom.skeleton(doc)
+                if cs[0] != hs[0]:
+                    rec.violation(f"bulk report with rejected entries: element structure changes when the rejected colour strings hold {T!r} "
+                                  f"({len(cs[0])} vs {len(hs[0])} nodes)", case)
+                elif cs[1] != hs[1]:
+                    rec.violation(f"bulk report with rejected entries: displayed text changes when the rejected colour strings hold {T!r}", case)
+            rec.count("e2e_bulk_rejected_judged")
+        except Exception as e:
+            rec.violation(f"make_readable_bulk(save_report=True) raised {type(e).__name__}: {e} with rejected entries holding {T!r}", case)
         # single pair quick report
         case = {"fn": "e2e_single", "T": T}
         try:
